@@ -28,9 +28,12 @@ type caseC19 struct {
 }
 
 type runC19 struct {
-	a    actual
-	perr error // parse/load error, if the entry point separates it
-	pan  any
+	a           actual
+	perr        error // parse/load error, if the entry point separates it
+	pan         any
+	xout        string // what the Execute call's own writer received (own-writer entry)
+	firstRunOut string // parse-time writer after the first run (own-writer entry)
+	secondRun   string // outcome of a plain second run of the same program (own-writer entry)
 }
 
 var (
@@ -62,6 +65,24 @@ func runEntry(entry string, c caseC19, dis, tr, st bool, dump []byte) (r runC19)
 			return
 		}
 		r.a.Blocks, r.a.Binding, r.a.Err = bcl.Execute(p, all...)
+	case "Parse+Execute(own writer)":
+		// the program's lines go to the writer it was parsed with, whatever
+		// writer and options the Execute call gets
+		p, err := bcl.Parse([]byte(c.Src), "n", all...)
+		if err != nil {
+			r.perr, r.a.Err = err, err
+			return
+		}
+		var xout lockedBuf
+		xo := []bcl.Option{bcl.OptOutput(&xout), bcl.OptLogger(&log), bcl.OptTrace(tr), bcl.OptStats(st)}
+		r.a.Blocks, r.a.Binding, r.a.Err = bcl.Execute(p, xo...)
+		// a later plain run of the same program prints to its own writer again
+		mark := out.String()
+		res2, b2, err2 := bcl.Execute(p)
+		second := strings.TrimPrefix(out.String(), mark)
+		r.secondRun = fmt.Sprintf("%q %v %v %v", second, errStr(err2), fmt.Sprintf("%#v", res2), fmt.Sprintf("%#v", b2))
+		r.xout = xout.String()
+		r.firstRunOut = mark
 	case "ParseFile+Execute":
 		done := make(chan struct{})
 		var p *bcl.Prog
@@ -161,7 +182,7 @@ func checkC19(c caseC19) (viol string, nontrivial bool, feats []string) {
 	var f *bc.File
 	var ins []bc.Instr
 	byOff := map[int]bc.Instr{}
-	entries := []string{"Interpret", "Parse+Execute", "ParseFile+Execute"}
+	entries := []string{"Interpret", "Parse+Execute", "ParseFile+Execute", "Parse+Execute(own writer)"}
 	if whole.err == nil {
 		var err error
 		f, err = bc.Decode(whole.dump)
@@ -205,6 +226,24 @@ func checkC19(c caseC19) (viol string, nontrivial bool, feats []string) {
 				return fmt.Sprintf("%s: blocks differ from the run without options", name), false, feats
 			case !eqBinding(r.a.Binding, base.a.Binding):
 				return fmt.Sprintf("%s: binding differs from the run without options", name), false, feats
+			}
+			if entry == "Parse+Execute(own writer)" {
+				if whole.err != nil {
+					continue
+				}
+				// the parse-time writer holds listing, parse statistics and the
+				// program's own lines; the Execute call's writer trace and
+				// execution statistics only
+				if r.secondRun != base.secondRun {
+					return fmt.Sprintf("%s: a later plain run of the same program gives %s; after a run without options it gives %s", name, clip(r.secondRun, 300), clip(base.secondRun, 300)), false, feats
+				}
+				if px := splitOutput(r.xout); len(px.program) > 0 || len(px.static) > 0 {
+					return fmt.Sprintf("%s: the Execute call's writer received program or listing lines: %q", name, clip(r.xout, 300)), false, feats
+				}
+				if got, want := strings.Join(splitOutput(r.firstRunOut).program, ""), strings.Join(splitOutput(base.firstRunOut).program, ""); got != want {
+					return fmt.Sprintf("%s: the program's lines at the writer it was parsed with are %q; without options %q", name, clip(got, 300), clip(want, 300)), false, feats
+				}
+				continue
 			}
 			po := splitOutput(r.a.Out)
 			if po.badOrder != "" {
